@@ -56,11 +56,17 @@ pub fn colours(steps: usize) -> Vec<[f32; 3]> {
 }
 
 fn run_case<T: Pixel>(acc: &mut Acc, idx: u64, c: &Case, cols: &[[f32; 3]], report_only: bool) {
+    // two layouts: three rows of blocks (every chroma row/column position occurs), and a single
+    // column of blocks (chroma planes exactly one sample wide, many rows) over the first colours
+    run_layout::<T>(acc, idx, c, cols, report_only, 3);
+    let narrow = &cols[..cols.len().min(96)];
+    run_layout::<T>(acc, idx, c, narrow, report_only, narrow.len());
+}
+
+fn run_layout<T: Pixel>(acc: &mut Acc, idx: u64, c: &Case, cols: &[[f32; 3]], report_only: bool, brows: usize) {
     let cfg = c.cfg();
     let (bw, bh) = (1usize << c.ss.0, 1usize << c.ss.1);
-    // block-constant image: colour k fills block k; subsampled images have 3 rows of blocks so
-    // that every chroma row/column position (first, middle, last) occurs
-    let brows = if c.ss == (0, 0) { 1 } else { 3 };
+    // block-constant image: colour k fills block k
     let bpr = (cols.len() + brows - 1) / brows;
     let (w, h) = (bpr * bw, brows * bh);
     let mut data = vec![[0.0f32; 3]; w * h];
@@ -69,7 +75,7 @@ fn run_case<T: Pixel>(acc: &mut Acc, idx: u64, c: &Case, cols: &[[f32; 3]], repo
             data[y * w + x] = cols[((y / bh) * bpr + x / bw) % cols.len()];
         }
     }
-    acc.states += 1;
+    acc.states += (brows == 3) as u64;
     acc.transitions += 3 * (w * h) as u64;
     let res = guarded(|| -> Result<(Yuv<T>, Yuv<T>), String> {
         let e = |e: yuvxyb::ConversionError| format!("{e:?}");
@@ -121,7 +127,11 @@ fn run_case<T: Pixel>(acc: &mut Acc, idx: u64, c: &Case, cols: &[[f32; 3]], repo
         acc.bucket("over budget", 1);
         return;
     }
-    acc.bucket(if c.ss == (0, 0) { "4:4:4 config within budget" } else { "subsampled config within budget" }, 1);
+    if brows == 3 {
+        acc.bucket(if c.ss == (0, 0) { "4:4:4 config within budget" } else { "subsampled config within budget" }, 1);
+    } else {
+        acc.bucket("one-block-wide column image within budget", 1);
+    }
 }
 
 pub fn cases() -> Vec<Case> {
